@@ -224,6 +224,7 @@ func setFloors(r *vf.Run, prop string) {
 		r.Floor("forge.rejected.coins-created", 1)
 		r.Floor("forge.rejected.coins-destroyed", 1)
 		r.Floor("forge.rejected.coins-wrap", 1)
+		r.Floor("forge.rejected.coins-wrap-early", 1)
 		r.Floor("forge.rejected.zero-coin", 1)
 		r.Floor("check.supply", 100)
 	case "C02":
